@@ -335,6 +335,67 @@ def d3_sqlite_run(carve):
     return o
 
 
+def d6_run(carve):
+    """verbs: the exported dtype of EVERY visible column after every pipeline (joins with keys of different numeric type,
+    unions, summarize, window mutate, rename, ...) matches the static dtype the table reports"""
+    import itertools
+
+    import polars as pl
+
+    from .. import pipelines as P
+
+    n, bad = 0, []
+    S = P.steps()
+    # extra join steps whose key columns have different numeric dtypes (the right key is re-created / cast by the backends)
+    def mk_join(how, narrow_left):
+        def f(x, c):
+            l = x >> pdt.mutate(k32=x.h.cast(pdt.Int32()), kf=x.h.cast(pdt.Float64()))
+            r = c.u >> pdt.mutate(k64=c.u.h - 6, k32r=(c.u.h - 6).cast(pdt.Int32()))
+            lk = l.k32 if narrow_left else l.kf
+            rk = r.k64 if narrow_left or how == "x" else r.k64
+            on = (lk == rk) if how != "mixed" else ((lk == rk) & (l.h < r.c))
+            return l >> pdt.join(r, on, "left" if how != "inner" else "inner")
+        return f
+
+    extra = [P.Step(f"join({how},{'Int32==Int64' if nl else 'Float64==Int64'})", mk_join(how, nl), "destroy", ("h",), False, True) for how in ("inner", "left", "mixed") for nl in (True, False)]
+    pipes = [[st] for st in S + extra] + [[a, b] for a in S for b in S] + [[a, b] for a in S[:12] for b in extra]
+    with warnings.catch_warnings():
+        warnings.simplefilter("ignore")
+        for be in ("polars", "sqlite"):
+            for pipe in pipes:
+                if P.plan(pipe) is None:
+                    continue
+                c = P.Ctx(be, "mixed")
+                x = c.t
+                try:
+                    for st in pipe:
+                        if not P._has(x, *st.needs):
+                            raise LookupError
+                        x = st.fn(x, c)
+                        if x is None:
+                            raise LookupError
+                    x = x >> pdt.ungroup()
+                    df = x >> pdt.export(pdt.Polars())
+                except Exception:  # noqa: BLE001  (rejections / refusals / export errors are C14 / C01)
+                    continue
+                n += 1
+                lab = f"[{be}] " + " >> ".join(st.label for st in pipe)
+                for col in x:
+                    static = T.without_const(col.dtype())
+                    if be == "polars":
+                        msg = check_type(static, df.schema[col.name])
+                        if msg and not ("int_as_float" in carve and "Float" in str(static) and Dtype.from_polars(df.schema[col.name]).is_int()):
+                            bad.append(f"{lab}: column {col.name}: {msg}")
+                    else:
+                        got = Dtype.from_polars(df.schema[col.name])
+                        if isinstance(got, NullT) or isinstance(static, NullT):
+                            continue
+                        fs, fg = TU.family(static), TU.family(got)
+                        if fs != fg and not (fs == "bool" and fg == "int") and not ("sqlite_dynamic_typing" in carve and {fs, fg} == {"int", "float"}):
+                            bad.append(f"{lab}: column {col.name}: static family {fs} ({static}), exported {got}")
+    return _enum_outcome("after every enumerated pipeline the exported dtype of every visible column equals the static dtype (Polars) / has its numeric family (SQLite)", n, bad)
+
+
 def obligations(tier):
     fi = H.fn_info
     CE = H.col_expr_mod
@@ -345,6 +406,8 @@ def obligations(tier):
         Obligation("C12/D3/polars_ops", "D3", "exported Polars dtype vs static type, all operators x signatures", d3_run, functions=tf, bounded="11 concrete column types + const/null literals; arity <= 3 fully; one 3-row sample frame with nulls (native Polars execution)", carveouts={"list_agg": "list.agg", "int_as_float": "Int column through a Float-only operator"}),
         Obligation("C12/D3c/polars_casts", "D3", "casts export the requested type", d3c_run, functions=[fi(CE.Cast.__init__), fi(H.polars_backend.compile_col_expr)], bounded="8 source columns (+ literals) x 12 targets"),
         Obligation("C12/D3/sqlite_ops", "D3", "exported SQLite column family vs static type", d3_sqlite_run, functions=[fi(H.sql_backend.SqlImpl.compile_col_expr), fi(H.sql_backend.SqlImpl.export), fi(H.sqlite_backend.SqliteImpl.fix_fn_types)], bounded="Int64/Float64/String/Bool columns, arity <= 2 (native SQLite execution)", carveouts={"sqlite_dynamic_typing": "int/float family under SQLite's dynamic typing"}),
+        Obligation("C12/D6/verbs", "D6", "exported dtypes of all columns after enumerated pipelines (joins with differently typed keys, unions, summarize, windows)", d6_run, functions=[fi(H.polars_backend.compile_ast), fi(H.sql_backend.SqlImpl.export), fi(pdt._internal.pipe.cache.Cache.update)],
+                   bounded="pipelines of depth <= 2 over the C01 step alphabet plus 6 joins with Int32/Float64 == Int64 keys; one input table; native execution on Polars and SQLite", carveouts={"sqlite_dynamic_typing": "int/float family under SQLite's dynamic typing", "int_as_float": "Int column through a Float-only operator"}),
         Obligation("C12/D5/reimport", "D5", "re-import / collect reproduce the types", d5_run, functions=[fi(pdt._internal.pipe.verbs.collect), fi(H.polars_backend.PolarsImpl.__init__)], bounded="4 pipelines"),
     ]
 
